@@ -279,8 +279,9 @@ func panObjSpace(name string, universe int) *panSpace {
 // over 5 addresses); the target uses one group in both rules.  Whether
 // each device group is edited incrementally, replaced, or the new group
 // is transferred depends on the distance of each device group.
-func panSharedSpace() *panSpace {
-	const universe = 5
+func panSharedSpace() *panSpace { return panSharedSpaceN(5) }
+
+func panSharedSpaceN(universe int) *panSpace {
 	nsub := int64(1<<uint(universe)) - 1
 	all := []string{"a1", "a2", "a3", "a4", "a5"}
 	set := func(mask int) []string {
@@ -749,7 +750,7 @@ func init() {
 	})
 	otherCutRunners = append(otherCutRunners, func(ax *approvex, ctx *core.Ctx) {
 		x := &panx{ctx: ctx, res: ax.res, sc: ax.sc, prop: "C10", cuts: true, seen: map[string]struct{}{}}
-		l := []*panSpace{panRuleSpace("rules", 5, 2), panObjSpace("objs", 3), panSvcSpace()}
+		l := []*panSpace{panRuleSpace("rules", 5, 2), panObjSpace("objs", 3), panSvcSpace(), panSharedSpaceN(3)}
 		if ctx.Thorough() {
 			l = append(l, panRuleSpace("rules-x", 6, 2), panObjSpace("objs-x", 4), panCorpusSpace())
 		}
